@@ -388,7 +388,7 @@ func TestVerifC18(t *testing.T) {
 	}
 
 	// Part 3: long random sequences
-	nRandom := c.Share(c.Pick(80000, 500000))
+	nRandom := c.Share(c.Pick(300000, 1000000))
 	for i := 0; i < nRandom; i += batch {
 		n := caseNo
 		caseNo++
